@@ -6,6 +6,24 @@ NOTES = ("Every check: TLC model-checks the module's design on small constants, 
 NOT_APPLICABLE = {}
 SUSPENDED = {}
 CHECKS = {
+    "C14": {
+        "text": "FzfLifecycle.tla models what fzf changes in its environment (termios, alternate screen, mouse/paste/cursor modes, "
+                "renderer queue, listener, preview/reload/execute/execute-silent commands, {f} temp files) with the renderer calls "
+                "of tui/light.go as op lists. TLC checks for every option combination that an exit can be requested in every state "
+                "and leaves everything as found, and that a requested exit completes once a command owning the terminal has ended "
+                "(liveness). Spec-simulated behaviours are brought about on the real binary on a pty and the terminal must receive "
+                "exactly the predicted mode-change sequence. Seeded random lives (commands started at seeded moments, exits racing "
+                "them: keys, POST, SIGINT/SIGTERM, ctrl-z, resizes) and tmux robustness lives (hostile items, sizes 1x1..200x50, "
+                "random actions, raw bytes, mouse reports, paste markers, resizes) are observed from outside only and each is "
+                "validated by Trace_Lifecycle (mode changes = spec steps; world after exit = the state ExitVia leaves; answered "
+                "GET /, no panic, gone).",
+        "design_ref": "DESIGN.md §6 C14, §8",
+        "note": "Crash-freedom and responsiveness are explored along generated behaviours and seeded stimuli, not proved for all "
+                "inputs. SIGHUP/SIGKILL are outside the model (fzf handles SIGINT/SIGTERM). Exits during execute are deferred; "
+                "become only when nothing fzf started is alive; bracketed paste followed through the byte stream only. Known "
+                "findings: preview left running / temp files left at exit. Trusted: TLC, python pty / tmux as terminals, /proc.",
+        "technique": "TLA+ spec + TLC exhaustive MC incl. liveness; spec-generated behaviours replayed on the real binary; trace validation of externally observed real executions",
+    },
     "C02": {
         "text": "FzfAlgo/FzfAlgoV2.tla give a declarative Witness per matcher and algorithmic sub-specs; TLC proves on every "
                 "(text<=5(8), pattern<=2(3)) over 6 class-covering alphabets that they agree, that results are valid, and that run-"
